@@ -1,6 +1,7 @@
 import Dcg.Proofs.Types
 import Dcg.Proofs.Rename
 import Dcg.Proofs.SpellOp
+import Dcg.Proofs.NoneOnce
 /-
 C13 — type annotations are well-formed and mean the same in every spelling.
 Only property theorems live here; helper lemmas are in Dcg/Proofs/Types.lean.
@@ -13,7 +14,7 @@ expression; `print`/`denote` (Sem.Typing) are the syntax and the meaning of typi
 -/
 namespace Dcg.Props.C13
 open Dcg.Model.Types Dcg.Model.HintExpr Dcg.Proofs.Types Dcg.Proofs.Cover
-open Dcg.Proofs.TypesOp Dcg.Proofs.HintOp Dcg.Proofs.PrintInj Dcg.Proofs.SpellOp
+open Dcg.Proofs.TypesOp Dcg.Proofs.HintOp Dcg.Proofs.PrintInj Dcg.Proofs.SpellOp Dcg.Proofs.NoneOnce
 open Dcg.Sem.Typing hiding Str sNone sComma sPipe
 
 def lit (s : String) : Str := s.toList
@@ -205,6 +206,48 @@ theorem no_double_optional_false : ¬ NoDoubleOptional := by
   rw [nested_optional_double_none.1] at this
   exact absurd this (by decide)
 
+/-- FULL STATEMENT (kept visible; false of the code in the typing spelling): at every union level of
+the rendered hint (flattened through `Optional[…]`, `Union[…]` and `|`, as `typing` flattens them)
+`None` is mentioned at most once (`rootOK`, Model/HintRegion). -/
+def NoneOnce : Prop := ∀ (o : Opts) (t : DT), wfTree t = true → rootOK (hintE o t).1 = true
+
+/-- PARTIAL — `none_once` / `no_double_optional` for the `|` spelling, every tree with plain names:
+the text `type_hint` builds is the printed form of an expression in which (1) no `Optional[…]` and no
+`Union[…]` subscription occurs at all — in particular no doubly wrapped optional —, (2) every `|` union
+is flat, mentions `None` only as its last alternative, hence (3) `None` occurs at most once at every
+union level. (1) holds for every tree, also with odd names (`no_optional_wrapper_operator`). -/
+theorem none_once_operator (o : Opts) (ho : o.unionOp = true) (t : DT) (hw : wfTree t = true) :
+    (typeHint o t).1 = print (hintE o t).1 ∧ opFree (hintE o t).1 = true ∧ wfB (hintE o t).1 = true ∧
+    rootOK (hintE o t).1 = true := by
+  obtain ⟨h1, _, h3⟩ := typeHint_eq_print_operator o ho t hw
+  have hf := opFree_hintE o ho t
+  exact ⟨h1, hf, h3, (rootOK_of_wfB _ h3 hf).1⟩
+
+theorem no_optional_wrapper_operator (o : Opts) (ho : o.unionOp = true) (t : DT) : opFree (hintE o t).1 = true :=
+  opFree_hintE o ho t
+
+/-- non-vacuity: an optional union with an optional member and a `None` member, under an optional list -/
+example :
+    let t : DT := .mk { isOptional := true, isList := true } none
+      [.mk { isOptional := true } none [leaf "int" true, leaf "None", .mk {} none [leaf "str" true]]]
+    wfTree t = true ∧ (typeHint operatorO t).1 = lit "List[int | str | None] | None" ∧
+    (typeHint typingO t).1 = lit "Optional[List[Optional[Union[Optional[int], Optional[str]]]]]" := by
+  decide
+
+/-- REFUTATION of `NoneOnce` (known finding C13-F2): the typing spelling of the same kind of tree
+mentions `None` twice in one union. -/
+theorem none_twice_typing :
+    wfTree (.mk { isOptional := true } none [leaf "int" true, leaf "str"]) = true ∧
+    rootOK (hintE typingO (.mk { isOptional := true } none [leaf "int" true, leaf "str"])).1 = false ∧
+    rootOK (hintE operatorO (.mk { isOptional := true } none [leaf "int" true, leaf "str"])).1 = true := by
+  decide
+
+theorem none_once_full_false : ¬ NoneOnce := by
+  intro h
+  have := h typingO (.mk { isOptional := true } none [leaf "int" true, leaf "str"]) none_twice_typing.1
+  rw [none_twice_typing.2.1] at this
+  exact absurd this (by decide)
+
 /-- REFUTATION (known finding C13-F3): a union of `None`s inside a container is written `Union[]`. -/
 theorem union_of_none_is_not_an_expression :
     (typeHint typingO (.mk { isList := true } none [leaf "None", leaf "None"])).1 = lit "Optional[List[Union[]]]" ∧
@@ -320,6 +363,14 @@ theorem spelling_changes_meaning :
     (typeHint operatorO t).1 = lit "List[int | str] | None" ∧
     (denote (hintE typingO t).1).show = lit "list({int;str;None})" ∧
     (denote (hintE operatorO t).1).show = lit "{list({int;str});None}" := by
+  decide
+
+/-- the hypotheses of `spelling_invariant_partial` are doing work: the witnesses of C13-F4 and C13-F3
+have plain names and lie outside `opRegion` -/
+theorem refuting_witnesses_are_outside_the_region :
+    opRegion typingO (.mk { isList := true } none [leaf "int" true, leaf "str"]) = false ∧
+    opRegion typingO (.mk { isList := true } none [leaf "None", leaf "None"]) = false ∧
+    opRegion typingO (.mk {} none [leaf "int" true, leaf "str"]) = true := by
   decide
 
 theorem spelling_invariant_full_false : ¬ SpellingInvariant := by
